@@ -1,4 +1,6 @@
 import Cuke.Driver.Tag
+import Cuke.Driver.Retry
+import Cuke.Driver.Match
 /-! `cuke-driver`: one request per line on stdin, one response per line on stdout. -/
 open Cuke Cuke.Wire Cuke.Driver
 
@@ -10,6 +12,8 @@ def dispatch (line : String) : String :=
       match fam with
       | "tag.eval" => handleTagEval args
       | "filter.feature" => handleFilter args
+      | "retry.resolve" => handleRetryResolve args
+      | "match.find" => handleMatchFind args
       | _ => none
     match r with
     | some s => s
